@@ -29,7 +29,8 @@ TRUSTED = [
     "run_haplotag calls",
     "the end-to-end oracle EXPECT takes the generated truth (which haplotype a read copies) as given and observes allele "
     "detection together with the decision; it is only applied where the outcome cannot depend on detection details",
-    "canonicalisation of BAM records into integers (all fields and all tags other than HP/PS/PC, tag order ignored) by the harness",
+    "canonicalisation of BAM records into integers (all fields; all tags other than HP/PS/PC with their value types, array "
+    "subtypes and raw order) by the harness",
     "the order in which the real code processes the samples is recorded by the driver (wrapper around PhasedInputReader.read) "
     "and handed to the model as data",
 ]
@@ -211,7 +212,8 @@ def parse_bam(path, names, bxs, contents, rg_sample, ignore_rg=False):
     with pysam.AlignmentFile(path, check_sq=False) as f:
         for a in f:
             tags = a.get_tags(with_value_type=True)
-            other = tuple(sorted((k, t, repr(v)) for k, v, t in tags if k not in ("HP", "PS", "PC")))
+            # all other tags: type-exact (value type, array subtype through repr) and in their raw order
+            other = tuple((k, t, repr(v)) for k, v, t in tags if k not in ("HP", "PS", "PC"))
             quals = tuple(a.query_qualities) if a.query_qualities is not None else None
             key = (a.query_name, a.flag, a.reference_id, a.reference_start, a.mapping_quality, a.cigarstring,
                    a.next_reference_id, a.next_reference_start, a.template_length, a.query_sequence, quals, other)
@@ -603,9 +605,21 @@ def feature_tallies(ctx, c, r):
                            ("paired_opposite_strand", (f & 0x1) and not (f & 0x4) and (f & 0x30)),
                            ("mapq_19", a["mapq"] == 19), ("mapq_20", a["mapq"] == 20), ("mapq_below_19", 0 < a["mapq"] < 19),
                            ("stale_HP_PS_PC", any(x[0] in ("HP", "PS", "PC") for x in a["tags"])),
+                           ("typed_tags_with_stale_HP_PS_PC", any(len(x) == 3 for x in a["tags"])
+                            and any(x[0] in ("HP", "PS", "PC") for x in a["tags"])),
+                           ("typed_tags_without_stale", any(len(x) == 3 for x in a["tags"])
+                            and not any(x[0] in ("HP", "PS", "PC") for x in a["tags"])),
                            ("BX", any(x[0] == "BX" for x in a["tags"]))):
             if cond:
                 t("cli.records." + name)
+    for a in c["alns"] + c["tail"]:
+        for x in a["tags"]:
+            if len(x) == 3:
+                t("cli.tag_type." + x[2])
+    stale_names = {(a["name"], a["start"]) for a in c["alns"] if any(len(x) == 3 for x in a["tags"])
+                   and any(x[0] in ("HP", "PS", "PC") for x in a["tags"])}
+    t("cli.records.stale_and_typed_tags_and_written_untagged",
+      sum(1 for x in r["out"] if x["tid"] >= 0 and x["tags"][0] is None and (x["qname"], x["start"]) in stale_names))
     # decisions, recomputed by a python oracle from the driver's data (tally only)
     d = 50000 if o["cutoff"] is None else o["cutoff"]
     for ch, e in ext_ch.items():
